@@ -642,6 +642,10 @@ func (c *Canonicalizer) renamerFunc() loop.Renamer {
 
 	var renamer loop.Renamer
 	renamer = func(v ssa.Value) string {
+		if ref, ok := v.(loop.LoopRef); ok {
+			// loops are labelled by the canonical name of their header block
+			return c.blockMap[ref.Loop.Header]
+		}
 		if s, ok := memo[v]; ok {
 			return s
 		}
